@@ -233,6 +233,23 @@ def step (s : St) (toks : List String) : St × String :=
       | .error .unsupported => (s, "unsupported")
       | .error _ => (s, "err res=ok")
     | _, _, _ => (s, "bad-op")
+  | "rdec" :: _ =>
+    -- the io.Reader entry points: lim=u (no input limit) or lim=<n> (DecodeReader[WithType] with that limit)
+    match (arg? toks "ty").bind parseTyStr, argNat? toks "pre", argHex? toks "bytes", arg? toks "lim" with
+    | some t, some pre, some b, some ls =>
+      let lim : Option Limit := if ls == "u" then some Limit.none else (ls.toNat?).map Limit.some
+      match lim with
+      | none => (s, "bad-op")
+      | some lim =>
+        let (r, alloc) := decodeReader s.env t (pre == 1) lim b
+        let res := if alloc > 67108864 + 64 * b.length then " res=alloc" else " res=ok"
+        match r with
+        | .ok v => (s, "ok v=" ++ showVal v ++ res)
+        | .error .panic => (s, "panic")
+        | .error .fuel => (s, "fuel")
+        | .error .unsupported => (s, "unsupported")
+        | .error _ => (s, "err" ++ res)
+    | _, _, _, _ => (s, "bad-op")
   | _ => (s, "bad-op")
 
 def machine : Machine := { σ := St, init := {}, step := step }
